@@ -33,8 +33,10 @@ NUMBERS_VALID = ['i:5', 'i:2', 'i:10', 'f:5/2', 'f:7', 'f:1/4', 'f:7/2', 'np:f64
                  # Python ints that do not fit into 64 bits (2**64, 2**70, 10**30): valid sizes; np.isfinite
                  # raises TypeError for them (F11b, fixed in ccc4c00 - a return is a domain_value_rejected violation)
                  'i:18446744073709551616', 'i:1180591620717411303424', 'i:1000000000000000000000000000000']
-# values that must not be used as a vertex COUNT in a constructor (np.arange would allocate them)
-HUGE = {'i:18446744073709551616', 'i:1180591620717411303424', 'i:1000000000000000000000000000000', 'f:1e308', 'i:4611686018427387904', 'np:f64:1e308', 'np:f32:3e38', 'np:f128:1e300', 'np:i64:4611686018427387904'}
+# positive values >= 2**60: in the documented domain of every size, but as a vertex COUNT beyond any
+# addressable array - np.arange refuses them at once with ValueError.  (Counts between the machine's memory
+# and 2**60 would raise MemoryError or allocate for minutes: none is generated.)
+UNSERVABLE_COUNT = 2 ** 60
 NUMBERS_INVALID = ['i:0', 'i:-3', 'f:0', 'f:-3/2', 'nan', 'inf', '-inf', 'np:f64:nan', 'np:f64:inf', 'np:f64:-inf',
                    'np:i32:0', 'np:i64:-2', 'False', 'np:False',
                    # 0, -0.0, negative, NaN, +-inf in every numeric carrier type
@@ -625,8 +627,6 @@ class Check(PropertyCheck):
         for cn in CLASS_NAMES:
             for p, k in ctor_params(cn):
                 for v in CATALOGUE:
-                    if p == 'nvertices' and v in HUGE:
-                        continue            # the constructor would np.arange() that many vertices
                     a = valid_args(cn, rng)
                     a[p] = v
                     cases.append({'kind': 'region', 'cls': cn, 'args': a, 'ops': [], 'grp': 'ctor-sweep'})
@@ -657,8 +657,6 @@ class Check(PropertyCheck):
             a = valid_args(cn, rng)
             for p in rng.sample(sorted(a), min(2, len(a))):
                 a[p] = rng.choice(CATALOGUE)
-                while p == 'nvertices' and a[p] in HUGE:
-                    a[p] = rng.choice(CATALOGUE)
             cases.append({'kind': 'region', 'cls': cn, 'args': a, 'ops': [], 'grp': 'ctor-two-invalid'})
         # random histories
         n_hist = 500 if tier == 'quick' else 20000
@@ -929,6 +927,12 @@ class Check(PropertyCheck):
         if op['o'] == 'assign':
             got = obj.__dict__.get(f)
             if k in ('RegionMetaDescr', 'RegionVisualDescr'):
+                if not isinstance(v, dict):
+                    # documented: a RegionMeta / RegionVisual or a dict; anything else (None, 0, '', [], ...)
+                    # must be refused on assignment, not silently turned into an empty object
+                    V.append({'kind': 'out_of_domain_accepted',
+                              'detail': f'step {i}: {cn}.{f} = {op["v"]} accepted (stored {dict(got) if isinstance(got, dict) else got!r}) '
+                                        f'but is neither a dict nor a {k[:-5]}'})
                 if isinstance(v, dict) and (not isinstance(got, dict) or
                                             [tok(x) for x in dict.values(got)] != [tok(x) for x in dict.values(v)]):
                     V.append({'kind': 'readback_changed', 'detail': f'step {i}: {cn}.{f} values differ from the assigned mapping'})
@@ -1290,7 +1294,9 @@ class Check(PropertyCheck):
             for g in d:
                 if g.startswith('inner_') and not _cmp_value(d[g]) < _cmp_value(d['outer_' + g[6:]]):
                     return True
-            if cn == 'RegularPolygonPixelRegion' and d['nvertices'] < 3:
+            if cn == 'RegularPolygonPixelRegion' and (d['nvertices'] < 3 or d['nvertices'] >= UNSERVABLE_COUNT):
+                # an in-domain count the library cannot serve: refusing it is legitimate (what C17 then
+                # requires is that the refused operation leaves the object unchanged - checked as for any other)
                 return True
         except Exception:
             return True
